@@ -169,7 +169,7 @@ CHECKS = {
     "C09": {"level": "model_checking", "parts": [worldx("C09", 200, 1500)], "assumptions": []},
     "C10": {"level": "model_checking", "parts": [worldx("C10", 150, 600), kgx(), kgx("C10", qb=120, tb=900, reuse=True)], "assumptions": []},
     "C11": {"level": "exploration", "parts": [parsex("C11"), worldx2("C11", 100, 1000), worldx3(120, 600, prop="C11")], "assumptions": []},
-    "C12": {"level": "model_checking", "parts": [worldx2("C12", 150, 1100)], "assumptions": []},
+    "C12": {"level": "model_checking", "parts": [worldx2("C12", 150, 1100), kgx("C12", 120, 600)], "assumptions": []},
     "C18": {"level": "model_checking", "parts": [worldx3(200, 1500)], "assumptions": []},
     "C20": {"level": "model_checking", "parts": [enginex("C20")], "assumptions": A_ENGINE},
     "C13": {"level": "exploration", "parts": [enumx("C13"), tsanx("C13")], "assumptions": []},
